@@ -42,8 +42,12 @@ def build(am, uc, d):
     if 't' in d['props']:
         props['t'] = (np.arange(16.0).reshape(4, 2, 2) - 5) * 0.5
         props['t1'] = (np.arange(4.0).reshape(4, 1, 1) + 2) * 0.5
-    if d.get('m_id'):
+    if d.get('m_id') or 'rare' in d['props']:
         props['m_id'] = np.array([7, 7, 9, 9])
+    if 'rare' in d['props']:
+        props.update(diameter=A([1.0, 0.5, 2.0, 1.5], 'angstrom'), density=A([2.5, 1.25, 8.0, 0.5], 'g/cm^3'), mu=A([[0.5, 0, -1], [1, 2, 0.25], [0, 0, 0], [-0.125, 1, 1]], 'e*angstrom'),
+                     espin=np.array([1, -1, 0, 1]), eradius=A([0.5, 1.0, 0.25, 2.0], 'angstrom'), eflag=np.array([0, 1, 1, 0]), bflag=np.array([1, 0, 1, 1]),
+                     mass=A([1.0, 26.5, 63.5, 12.0], 'amu'), volume=A([1.0, 8.0, 0.125, 27.0], 'angstrom^3'))
     atoms = am.Atoms(atype=atype, pos=A(rel @ V + o, 'angstrom'), **props)
     symbols = (['Al', 'Cu', 'Ni'][:nt]) if d['symbols'] else None
     pbc = [c == 'p' for c in d['pbc']]
@@ -163,6 +167,10 @@ def do_load(am, text, c, kw, tmpdir, tag):
     return am.load('poscar', src)
 
 
+RARE_PROPS = {'molecular': ['m_id'], 'sphere': ['diameter', 'density'], 'dipole': ['mu'], 'body': ['bflag', 'mass'], 'peri': ['volume', 'density'],
+              'electron': ['espin', 'eradius'], 'ellipsoid': ['eflag', 'density']}
+
+
 def compare(uc, s, s2, c, tol):
     """every carried field to the printed precision: tol is the precision of one printed token in the FILE's unit of that quantity
     (0.5e-13 for %.13f, relative 0.5e-5 for %.5e); positions of a data file carry the image-flag arithmetic (x12)"""
@@ -209,17 +217,21 @@ def compare(uc, s, s2, c, tol):
     if car['symbols'] and None not in s.symbols and tuple(s2.symbols) != tuple(s.symbols):
         return 'symbols changed (%s -> %s)' % (s.symbols, s2.symbols)
     carried = list(e['props']) + [x + '1' for x in ('w', 't') if x in e['props']]       # w1 / t1: the length-1-axis companions of w / t
+    if 'rare' in carried:          # the style's own columns
+        carried.remove('rare')
+        if fmt == 'atom_data':
+            carried += RARE_PROPS[c['opts']['atom_style']]
     for p in carried + (['m_id'] if c['opts'].get('atom_style') == 'full' else []):
         if p not in s2.atoms.prop():
             return 'property %s not loaded' % p
         a, b = np.asarray(s.atoms.view[p])[order], np.asarray(s2.atoms.view[p])
         if a.shape != b.shape:
             return 'property %s shape %s loaded as %s' % (p, a.shape[1:], b.shape[1:])
-        u = {'velocity': 'angstrom/ps', 'charge': 'e'}.get(p)
+        u = {'velocity': 'angstrom/ps', 'charge': 'e', 'diameter': 'angstrom', 'density': 'g/cm^3', 'mu': 'e*angstrom', 'eradius': 'angstrom', 'mass': 'amu', 'volume': 'angstrom^3'}.get(p)
         tp = 1e-9
         if u:
             a, b = G(a, u), G(b, u)
-            tp = P(p, u, float(np.abs(a).max()))
+            tp = P({'mu': 'dipole', 'diameter': 'length', 'eradius': 'length'}.get(p, p), u, float(np.abs(a).max()))
         elif '%.5e' in c['opts']['ff']:
             tp = 0.6e-5 * max(float(np.abs(a).max()), 1.0)
         if not np.allclose(a, b, rtol=0, atol=tp):
